@@ -334,6 +334,21 @@ def run(chk, args):
             export = json.load(f)
         scen = make_scenarios(export, chk.tier, chk.seed)
         events, rejects = run_and_validate(chk, scen, data_path, "scenarios")
+        # conversion is a function of (name, set, version) alone: the same calls made in another order in fresh
+        # processes (newest table first; shuffled) are validated call by call in the same way
+        rng2 = random.Random(chk.seed + 5)
+        nonempty = [sc for sc in scen if sc["pars"]]
+        sample = nonempty if thorough else rng2.sample(nonempty, min(len(nonempty), 1500))
+        rev = sorted(sample, key=lambda sc: (tuple(sc["model_version"]), sc["tid"]), reverse=True)
+        shuf = list(sample)
+        rng2.shuffle(shuf)
+        off = 10 ** 7
+        scen2 = [dict(sc, tid=sc["tid"] + off) for sc in rev] + [dict(sc, tid=sc["tid"] + 2 * off) for sc in shuf]
+        _, rejects2 = run_and_validate(chk, scen2, data_path, "other call orders")
+        for sc2, ev, clause, detail in rejects2:
+            if sc2 is not None:
+                sc2 = dict(sc2, tid=sc2["tid"] % off, order="reversed" if sc2["tid"] < 2 * off else "shuffled")
+            rejects.append((sc2, ev, clause, detail))
         report_rejects(chk, rejects)
         corruption_selftest(chk, events, rejects, data_path, {sc["tid"]: sc for sc in scen})
         shown = set()
